@@ -1,13 +1,12 @@
 import Tea.Gen.Facts
 import Tea.Doc.Facts
 /-
-Bridge theorems of C15: the facts the go/ast extractor reads from /repo's CURRENT source
+Bridge theorems of C10: the facts the go/ast extractor reads from /repo's CURRENT source
 (`Tea.Gen`, regenerated on every run) equal the frozen expectation the models and theorems
 of this property were written against (`Tea.Doc`). Written by checklib/mkbridges.py.
 -/
-namespace Tea.Props.Bridge.C15
+namespace Tea.Props.Bridge.C10
 
-theorem bufsize : Tea.Gen.fact_bufsize = Tea.Doc.fact_bufsize := rfl
 theorem body_readAnsiInputs : Tea.Gen.fact_body_readAnsiInputs = Tea.Doc.fact_body_readAnsiInputs := rfl
 theorem body_detectOneMsg : Tea.Gen.fact_body_detectOneMsg = Tea.Doc.fact_body_detectOneMsg := rfl
 theorem body_detectSequence : Tea.Gen.fact_body_detectSequence = Tea.Doc.fact_body_detectSequence := rfl
@@ -15,4 +14,4 @@ theorem body_detectBracketedPaste : Tea.Gen.fact_body_detectBracketedPaste = Tea
 theorem body_detectReportFocus : Tea.Gen.fact_body_detectReportFocus = Tea.Doc.fact_body_detectReportFocus := rfl
 theorem body_isIncompleteEvent : Tea.Gen.fact_body_isIncompleteEvent = Tea.Doc.fact_body_isIncompleteEvent := rfl
 
-end Tea.Props.Bridge.C15
+end Tea.Props.Bridge.C10
